@@ -332,11 +332,11 @@ impl Check for C19 {
             ],
             budget_s: tier.pick(50, 600),
             exhaustive_when_uncapped: true,
-            bounds: json!({"depth": tier.pick(6, 8)}),
+            bounds: json!({"depth": tier.pick(6, 10)}),
         }
     }
     fn items(&self, tier: Tier) -> Vec<Value> {
-        models().iter().map(|m| json!({"id": format!("timeout/{}", m.id), "model": m.id, "depth": tier.pick(6, 8)})).collect()
+        models().iter().map(|m| json!({"id": format!("timeout/{}", m.id), "model": m.id, "depth": tier.pick(6, 10)})).collect()
     }
     fn run_item(&self, _tier: Tier, item: &Value, out: &mut ItemOut) {
         let m = models().into_iter().find(|m| m.id == item["model"].as_str().unwrap()).unwrap();
